@@ -106,3 +106,17 @@ REG.add(Contract(FILE, '_range_defn_cmp',
                                  (res == 0) == z3.And(start(v.a) == start(v.b), rtype(v.a) == rtype(v.b))],
     post_names=['negative-iff-a-strictly-before-b', 'positive-iff-b-strictly-before-a', 'zero-iff-same-key'],
     carries=['post'], props=['C08']))
+REG.get(FILE, '_range_defn_cmp').order_le = key_le      # cmp(a, b) <= 0 iff a comes no later than b in canonical order (lemma 'comparator-order' below)
+
+# the setter sorts with that comparator: it establishes `canonical`, the precondition of the range search
+def _valid_markers(rt):
+    i = z3.Int('i!vm')
+    return z3.ForAll([i], z3.Implies(z3.And(0 <= i, i < z3.Length(rt)), z3.Or(rtype(rt[i]) == GE, rtype(rt[i]) == GT)))
+def _setter_post(v, old, res):
+    rt = v.field('self', '_range_defns'); x = z3.Const('x!sp', RD)
+    return canonical(rt) + [z3.Length(rt) == z3.Length(v.range_defns), z3.ForAll([x], z3.Contains(rt, z3.Unit(x)) == z3.Contains(v.range_defns, z3.Unit(x)))]
+REG.add(Contract(FILE, 'Multi_Range_Potential_Form.range_defns.setter',
+    params=[('self', T.New('Multi_Range_Potential_Form')), ('range_defns', T.List(T.Obj('Multi_Range_Defn')))],
+    requires=lambda v: [_valid_markers(v.range_defns)], ensures=_setter_post,
+    post_names=['start-ascending-inclusive-before-exclusive', 'markers-valid', 'same-number-of-ranges', 'same-ranges'], instantiate_int_foralls=True,
+    carries=['post'], props=['C08']))
